@@ -1169,6 +1169,24 @@ class HookInterp(Interp):
             self.assign(ctx, s.target, VStr(ctx.fresh("first_key_or_char", "String")), env, fi)
             self.exec_block(ctx, s.body, env, fi)
             raise Unsupported(f"for over a JSON {kind} whose body does not leave the function on the first element")
+        shape = self._map_loop_shape(s, env)
+        if shape is not None:
+            acc, elt_expr, pre = shape
+            before = set(env)
+
+            def elt(env2):
+                self.exec_block(ctx, pre, env2, fi)
+                return self.eval(ctx, elt_expr, env2, fi)
+
+            env[acc] = self.map_json_array(ctx, it, s.target, env, fi, elt)
+            # names bound inside the loop would hold the last element's values afterwards: not modelled, so they must not be read
+            for st in [s.target] + pre:
+                for node in ast.walk(st):
+                    if isinstance(node, ast.Name) and isinstance(node.ctx, ast.Store):
+                        if node.id in before:
+                            raise Unsupported("map loop that rebinds a name of the enclosing scope")
+                        env.pop(node.id, None)
+            return True
         ln = S.length(it.path)
         k = ctx.choose([Eq(ln, "0")] + [Eq(ln, smt.sint(i)) for i in range(1, NELEMS + 1)] + [smt.Gt(ln, smt.sint(NELEMS))])
         for i in range(min(k, NELEMS)):
@@ -1193,6 +1211,43 @@ class HookInterp(Interp):
             except (PyRaise, _ReturnT):
                 raise_inf()
         return True
+
+    def map_json_array(self, ctx: Ctx, it: "VJson", target: ast.expr, env, fi, elt) -> "VJsonMapped":
+        """[elt(x) for x in <json array>]: the first NELEMS elements individually, every further one through the generic element `*`."""
+        S = self.site
+        ln = S.length(it.path)
+        k = ctx.choose([Eq(ln, "0")] + [Eq(ln, smt.sint(i)) for i in range(1, NELEMS + 1)] + [smt.Gt(ln, smt.sint(NELEMS))])
+        items: List[Optional[V]] = [None] * (NELEMS + 1)
+        for i in range(min(k, NELEMS + 1)):
+            node = VJson(S.elem(it.path, i if i < NELEMS else "*"))
+            env2 = dict(env)
+            self.assign(ctx, target, node, env2, fi)
+            items[i] = elt(env2)
+        return VJsonMapped(it.path, items)
+
+    @staticmethod
+    def _map_loop_shape(s: ast.For, env) -> Optional[Tuple[str, ast.expr, List[ast.stmt]]]:
+        """`for x in xs: <local statements>; ACC.append(<expr>)` with ACC an empty list built by this call: the loop is the comprehension
+        `ACC = [<expr> for x in xs]` (statements before the append are evaluated per element in a scope of their own)."""
+        if not s.body:
+            return None
+        last = s.body[-1]
+        if not (isinstance(last, ast.Expr) and isinstance(last.value, ast.Call) and isinstance(last.value.func, ast.Attribute) and last.value.func.attr == "append" and isinstance(last.value.func.value, ast.Name) and len(last.value.args) == 1 and not last.value.keywords):
+            return None
+        acc = last.value.func.value.id
+        cur = env.get(acc)
+        if not (isinstance(cur, VList) and cur.items == []):
+            return None
+        for st in s.body[:-1]:
+            for node in ast.walk(st):
+                if isinstance(node, (ast.Return, ast.Break, ast.Continue, ast.Global, ast.Nonlocal, ast.FunctionDef, ast.Lambda, ast.For, ast.While)):
+                    return None
+                if isinstance(node, ast.Name) and node.id == acc:
+                    return None
+        for node in ast.walk(last.value.args[0]):
+            if isinstance(node, ast.Name) and node.id == acc:
+                return None
+        return acc, last.value.args[0], list(s.body[:-1])
 
     @staticmethod
     def _pure_call(node: ast.Call) -> bool:
@@ -1224,16 +1279,11 @@ class HookInterp(Interp):
                     return VList([])
                 if kind != "arr":
                     raise PyRaise("TypeError", [], f"comprehension over a JSON {kind}")
-                S = self.site
-                ln = S.length(it.path)
-                k = ctx.choose([Eq(ln, "0")] + [Eq(ln, smt.sint(i)) for i in range(1, NELEMS + 1)] + [smt.Gt(ln, smt.sint(NELEMS))])
-                items: List[Optional[V]] = [None] * (NELEMS + 1)
-                for i in range(min(k, NELEMS + 1)):
-                    node = VJson(S.elem(it.path, i if i < NELEMS else "*"))
-                    env2 = dict(env)
-                    self.assign(ctx, g.target, node, env2, fi)
-                    items[i] = self.eval(ctx, e.elt, env2, fi)
-                return VJsonMapped(it.path, items)
+
+                def elt(env2):
+                    return self.eval(ctx, e.elt, env2, fi)
+
+                return self.map_json_array(ctx, it, g.target, env, fi, elt)
             if isinstance(it, (VList, VTuple)):
                 out = []
                 for item in it.items:
